@@ -14,6 +14,12 @@ def replay_file(path):
     if c is None or not doc.get('concrete_inputs'):
         print(json.dumps({'replayable': False, 'obligation': doc['obligation'], 'solver_output': doc.get('solver_output')}, indent=1))
         return 0
+    if not isinstance(doc['concrete_inputs'], dict) or 'args' not in doc['concrete_inputs']:
+        # the violation was demonstrated by a native witness program or a text-level replay (regex-language obligations,
+        # bounded stand-ins): the recorded observation is shown; running the property's check again re-executes the program
+        print(json.dumps({'replayable': 'by re-running the check', 'obligation': doc['obligation'], 'input': doc['concrete_inputs'],
+                          'recorded_observation': doc.get('replay')}, indent=1, default=str))
+        return 1 if (doc.get('replay') or {}).get('reproduced') else 0
     r = replay(c, doc['concrete_inputs'])
     print(json.dumps(r, indent=1, default=str))
     return 1 if r.get('reproduced') else 0
